@@ -59,6 +59,8 @@ def run(ctx):
         rawpats = ['\\Uffffffff', '\\U00110000', '\\U0010ffff', '\\U80000000', '\\ud800', '\\N{', '\\N{nope}', '\\N{DIGIT ONE}', '\\x4', '\\x', '\\u12',
                    '\\777', '\\1234', '\\U0000004', 'a\\x5b', '[\\x5d]', '\\\\Uffffffff', '\\\\\\Uffffffff', '@(\\Uffffffff)', '\\xff', '\\400']
         rawpats += ['\\400', '\\777', 'a\\477b', '[\\500]', '\\377', '\\x80', '@(\\600)']
+        # regression (fixed f1e8f80): internal marker text written by the user
+        rawpats += ['[(?#)]', '[a(?#)]', '[!(?#)]', '(?#)', '@([(?#)])', '!([(?#)])', '[(?#)', '[[:alpha:](?#)]', '[#-(?#)]', '\\(?#)', '[(?\\#)]']
         for _ in range(60 if ctx.quick else 600):
             rawpats.append(''.join(rng.choice(['\\', 'U', 'u', 'x', 'N', '{', '}', 'f', '8', '0', '1', 'a', '/', '*']) for _ in range(rng.randint(2, 14))))
         pats = rawpats + pats
@@ -108,8 +110,6 @@ def run(ctx):
                             try:
                                 re.compile(rx)
                             except re.error as e:
-                                if '(?#)' in p and ctx.is_known(lambda e_: e_['id'] == 'C08-comment-marker-in-bracket'):
-                                    continue
                                 ctx.counterexample('%s(%r, flags=%#x) returned a regex that does not compile: %s' % (api, P, fv if api[0] == 'f' else gv, e),
                                                    {'api': api, 'pattern': p, 'bytes': isb, 'regex': repr(rx)})
                                 break
@@ -134,10 +134,7 @@ def run(ctx):
             pass
         shutil.rmtree(tmp, ignore_errors=True)
     ctx.counted('entry points x strings', evals, len(nontriv), samples)
-    common.replay_witnesses(ctx, [
-        ('C08-comment-marker-in-bracket', "fnmatch.translate('[(?#)]') does not compile (the `(?#)` marker written inside a bracket is stripped)",
-         lambda: _not_compiles(Fm.translate('[(?#)]')[0][0])),
-    ])
+    common.replay_witnesses(ctx, [])
     return ctx.finish(RULE)
 
 
